@@ -1,4 +1,5 @@
 import itertools
+from collections import Counter
 
 from harness import core, msggen
 from harness.props.c16 import model_event, matches
@@ -131,7 +132,11 @@ class C17(core.Prop):
             for t in range(n - 2):
                 if rng.random() < 0.4:
                     instants[t] = [["msg", gen_msg(rng)] for _ in range(rng.choice([1, 1, 2, 3]))]
-            pairs = rng.sample([("D", "T"), ("D", None), (None, None), ("E", "T"), ("D", "S"), (None, "T")], rng.randint(1, 3))
+            pool = [("D", "T"), ("D", None), (None, None), ("E", "T"), ("D", "S"), (None, "T")]
+            if rng.random() < 0.3:      # several waits on the same property: each polls on its own schedule
+                pairs = [rng.choice(pool[:2])] * rng.randint(2, 3)
+            else:
+                pairs = rng.sample(pool, rng.randint(1, 3))
             for i, (dev, vec) in enumerate(pairs):
                 kind = rng.choice(["expect", "initial", "check"])
                 target = rng.choice(["value", "value", "state"])
@@ -155,14 +160,25 @@ class C17(core.Prop):
     def waits(self, c):
         return [(t, it[1]) for t, b in enumerate(c["instants"]) for it in b if it[0] == "start"]
 
+    def shared(self, c):
+        """ids of waits whose (device, vector) another wait of the script has too: their getProperties cannot be told apart"""
+        keys = [(w["dev"], w["vec"]) for _, w in self.waits(c)]
+        return {w["id"] for _, w in self.waits(c) if keys.count((w["dev"], w["vec"])) > 1}
+
     def compare(self, c, obs, mout):
         if obs["status"] != "ok":
             return "implementation %s %s" % (obs["status"], obs.get("detail", ""))
         if not isinstance(mout, list):
             return "model rejected the input"
-        base = {mw[0]: model_wait(mw) for mw in mout[0]}
+        shared = self.shared(c)
+
+        def view(d, wid):        # polls of waits that share their property are compared as a group below
+            if d is not None and wid in shared:
+                d = dict(d, polls=None)
+            return d
+        base = {mw[0]: view(model_wait(mw), mw[0]) for mw in mout[0]}
         for start, w in self.waits(c):
-            got = impl_wait(c, obs, w)
+            got = view(impl_wait(c, obs, w), w["id"])
             if got is None:
                 return "wait %d never ran" % w["id"]
             if got == base.get(w["id"]):
@@ -175,7 +191,7 @@ class C17(core.Prop):
             outs, err = core.run_model("wait", inputs) if inputs else ([], None)
             if err:
                 return "model runner failed: %s" % err
-            if not any(isinstance(m, list) and {mw[0]: model_wait(mw) for mw in m[0]}.get(w["id"]) == got for m in outs):
+            if not any(isinstance(m, list) and {mw[0]: view(model_wait(mw), mw[0]) for mw in m[0]}.get(w["id"]) == got for m in outs):
                 return "wait %d: implementation %s; model (messages before timers) %s; no admissible order of the %d tied instants gives the implementation's result" % (
                     w["id"], str(got)[:300], str(base.get(w["id"]))[:300], len(ties))
         return None
@@ -185,6 +201,7 @@ class C17(core.Prop):
         if obs["status"] != "ok":
             return "crashed: %s %s" % (obs["status"], obs.get("detail", ""))
         n = len(c["instants"])
+        shared, groups = self.shared(c), {}
         for start, w in self.waits(c):
             got = impl_wait(c, obs, w)
             if got is None:
@@ -222,7 +239,19 @@ class C17(core.Prop):
                 if got["done"] != want["done"]:
                     return "wrong-instant: %s completed at %s, expected %s" % (what, got["done"], want["done"])
             end = got["done"] if got["done"] is not None else n
-            if w["poll"]:
+            if w["id"] in shared:
+                # waits on one property: the requests seen are those of all of them together, each on its own schedule
+                g = groups.setdefault((w["dev"], w["vec"]), {"must": [], "may": [], "seen": got["polls"], "who": []})
+                g["who"].append(what)
+                if w["poll"]:
+                    t = start + w["poll"][0]
+                    while t < n:
+                        if t < end:
+                            g["must"].append(t)
+                        if t <= end:
+                            g["may"].append(t)
+                        t += w["poll"][1]
+            elif w["poll"]:
                 ticks, t = [], start + w["poll"][0]
                 while t < n:
                     ticks.append(t)
@@ -233,6 +262,11 @@ class C17(core.Prop):
                     return "polling-wrong: %s completed at %s polled at %s, ticks %s" % (what, got["done"], got["polls"], ticks[:8])
             elif got["polls"]:
                 return "polled-while-off: %s" % what
+        for key, g in groups.items():
+            seen, must, may = Counter(g["seen"]), Counter(g["must"]), Counter(g["may"])
+            if must - seen or seen - may:
+                return "polling-wrong: waits on %s (%s) polled at %s; due before completion %s, due up to completion %s" % (
+                    key, "; ".join(g["who"]), sorted(g["seen"]), sorted(g["must"]), sorted(g["may"]))
         # registration: after every instant exactly the waits that have begun and not completed hold a callback
         ws = [(s, impl_wait(c, obs, w)) for s, w in self.waits(c)]
         for t, count in obs["snaps"]:
